@@ -7,6 +7,7 @@ import (
 	"os"
 
 	"verif/chk"
+	_ "verif/e2"
 	_ "verif/e3/c10"
 )
 
